@@ -40,7 +40,7 @@ S3 == {-1, 0, 2}
 
 X == <<"var", "x">>
 K(n) == <<"const", n, 1>>
-Q(q) == <<"const", q[1], q[2]>>
+Q(q) == IF q = ROvf THEN <<"bigconst", "", "">> ELSE <<"const", q[1], q[2]>>
 Add(a, b) == <<"op", "+", a, b>>
 Sub(a, b) == <<"op", "-", a, b>>
 Mul(a, b) == <<"op", "*", a, b>>
@@ -56,17 +56,17 @@ SignFactor == <<"op", "^", K(-1), Mul(K(2), KV)>>             \* (-1) ^ (2 * k),
 RECURSIVE Trim(_)
 Trim(p) == IF Len(p) > 0 /\ p[Len(p)] = Z THEN Trim(SubSeq(p, 1, Len(p) - 1)) ELSE p
 At(p, i) == IF i >= 1 /\ i <= Len(p) THEN p[i] ELSE Z
-PAdd(p, q) == Trim([i \in 1..MaxN(Len(p), Len(q)) |-> RAdd(At(p, i), At(q, i))])
-PScale(c, p) == Trim([i \in 1..Len(p) |-> RMul(c, p[i])])
+PAdd(p, q) == Trim([i \in 1..MaxN(Len(p), Len(q)) |-> QAdd(At(p, i), At(q, i))] \o <<>>)
+PScale(c, p) == Trim([i \in 1..Len(p) |-> QMul(c, p[i])] \o <<>>)
 PNeg(p) == PScale(<<-1, 1>>, p)
 PSub(p, q) == PAdd(p, PNeg(q))
 RECURSIVE ConvSum(_, _, _, _)
-ConvSum(p, q, k, i) == IF i > Len(p) THEN Z ELSE RAdd(RMul(p[i], At(q, k - i + 1)), ConvSum(p, q, k, i + 1))
-PMul(p, q) == IF Len(p) = 0 \/ Len(q) = 0 THEN <<>> ELSE Trim([k \in 1..(Len(p) + Len(q) - 1) |-> ConvSum(p, q, k, 1)])
+ConvSum(p, q, k, i) == IF i > Len(p) THEN Z ELSE QAdd(QMul(p[i], At(q, k - i + 1)), ConvSum(p, q, k, i + 1))
+PMul(p, q) == IF Len(p) = 0 \/ Len(q) = 0 THEN <<>> ELSE Trim([k \in 1..(Len(p) + Len(q) - 1) |-> ConvSum(p, q, k, 1)] \o <<>>)
 RECURSIVE PPow(_, _)
 PPow(p, n) == IF n = 0 THEN <<One>> ELSE PMul(p, PPow(p, n - 1))
-PDeriv(p) == IF Len(p) <= 1 THEN <<>> ELSE Trim([i \in 1..(Len(p) - 1) |-> RMul(RInt(i), p[i + 1])])
-PAnti(p) == IF Len(p) = 0 THEN <<>> ELSE Trim([i \in 1..(Len(p) + 1) |-> IF i = 1 THEN Z ELSE RDiv(p[i - 1], RInt(i - 1))])
+PDeriv(p) == IF Len(p) <= 1 THEN <<>> ELSE Trim([i \in 1..(Len(p) - 1) |-> QMul(RInt(i), p[i + 1])] \o <<>>)
+PAnti(p) == IF Len(p) = 0 THEN <<>> ELSE Trim([i \in 1..(Len(p) + 1) |-> IF i = 1 THEN Z ELSE QDiv(p[i - 1], RInt(i - 1))] \o <<>>)
 \* p(a * u + b)
 RECURSIVE PCompFrom(_, _, _)
 PCompFrom(p, l, i) == IF i > Len(p) THEN <<>> ELSE PAdd(<<p[i]>>, PMul(l, PCompFrom(p, l, i + 1)))
@@ -87,7 +87,7 @@ ToPoly(e, x) ==
          ELSE LET b == ToPoly(e[4], x) IN
               IF b = PErr THEN PErr
               ELSE CASE e[2] = "+" -> PAdd(a, b) [] e[2] = "-" -> PSub(a, b) [] e[2] = "*" -> PMul(a, b)
-                     [] e[2] = "/" -> IF Len(b) = 1 THEN PScale(RDiv(One, b[1]), a) ELSE PErr
+                     [] e[2] = "/" -> IF Len(b) = 1 THEN PScale(QDiv(One, b[1]), a) ELSE PErr
                      [] OTHER -> PErr
     [] OTHER -> PErr
 
@@ -122,7 +122,8 @@ RefOne(rule, pe, e) ==             \* the reference rule on ONE definite integra
          IF IsInt(e) THEN EvalAt(e[2], e[3], e[4], FromPoly(PAnti(ToPoly(e[5], e[2])), e[2])) ELSE e
     [] rule = "EvalAt" ->                  \* [F]_x=a,b = F(b) - F(a)
          IF e[1] = "evalat"
-         THEN LET p == ToPoly(e[5], e[2])  lo == Val(e[3], <<>>)  hi == Val(e[4], <<>>) IN Q(RSub(PEval(p, hi.v), PEval(p, lo.v)))
+         THEN LET p == ToPoly(e[5], e[2])  lo == Val(e[3], <<>>)  hi == Val(e[4], <<>>) IN
+              IF p = PErr \/ lo.st # 0 \/ hi.st # 0 THEN e ELSE Q(QSub(PEval(p, hi.v), PEval(p, lo.v)))
          ELSE e
     [] rule = "ExpandPolynomial" -> IF IsInt(e) THEN IntE(e[2], e[3], e[4], FromPoly(ToPoly(e[5], e[2]), e[2])) ELSE e
     [] rule = "Simplify" ->
@@ -130,14 +131,15 @@ RefOne(rule, pe, e) ==             \* the reference rule on ONE definite integra
          ELSE IF e[1] = "deriv" \/ e[1] = "sum" \/ e[1] = "evalat" THEN e ELSE FromPoly(ToPoly(e, "x"), "x")
     [] rule = "Substitution" ->            \* u = a * x + b :  INT x:[l,h]. f = INT u:[a l + b, a h + b]. f((u - b) / a) / a
          IF IsInt(e)
-         THEN LET a == Val(pe[1], <<>>).v  b == Val(pe[2], <<>>).v  ia == RDiv(One, a)
+         THEN LET a == Val(pe[1], <<>>).v  b == Val(pe[2], <<>>).v  ia == QDiv(One, a)
                   lo == Val(e[3], <<>>).v  hi == Val(e[4], <<>>).v
-                  g == PScale(ia, PComp(ToPoly(e[5], e[2]), ia, RNeg(RMul(b, ia)))) IN
-              IntE("u", Q(RAdd(RMul(a, lo), b)), Q(RAdd(RMul(a, hi), b)), FromPoly(g, "u"))
+                  g == PScale(ia, PComp(ToPoly(e[5], e[2]), ia, QNeg(QMul(b, ia)))) IN
+              IF Len(g) < 0 THEN e ELSE IntE("u", Q(QAdd(QMul(a, lo), b)), Q(QAdd(QMul(a, hi), b)), FromPoly(g, "u"))
          ELSE e
     [] rule = "IntegrationByParts" ->      \* u dv = integrand :  INT u dv = [u v] - INT v du
          IF IsInt(e)
          THEN LET u == ToPoly(pe[1], e[2])  v == ToPoly(pe[2], e[2]) IN
+              IF u = PErr \/ v = PErr THEN e ELSE
               Sub(EvalAt(e[2], e[3], e[4], FromPoly(PMul(u, v), e[2])), IntE(e[2], e[3], e[4], FromPoly(PMul(v, PDeriv(u)), e[2])))
          ELSE e
     [] rule = "SplitRegion" -> IF IsInt(e) THEN Add(IntE(e[2], e[3], pe[1], e[5]), IntE(e[2], pe[1], e[4], e[5])) ELSE e
@@ -146,7 +148,7 @@ RefOne(rule, pe, e) ==             \* the reference rule on ONE definite integra
          IF e[1] = "sum" /\ e[5][1] = "op" /\ e[5][2] = "*" /\ e[5][3] = SignFactor THEN <<"sum", e[2], e[3], e[4], Mul(K(1), e[5][4])>> ELSE e
     [] rule = "SumUnfold" ->               \* a finite sum is the sum of its terms
          IF e[1] = "sum" /\ ToPoly(e[5], e[2]) # PErr THEN LET lo == Val(e[3], <<>>).v[1]  hi == Val(e[4], <<>>).v[1]  p == ToPoly(e[5], e[2]) IN
-                               Q(HornerP([i \in 1..(hi - lo + 1) |-> PEval(p, RInt(lo + i - 1))], One, 1))
+                               IF Len(p) < 0 THEN e ELSE Q(HornerP([i \in 1..(hi - lo + 1) |-> PEval(p, RInt(lo + i - 1))] \o <<>>, One, 1))
          ELSE e
     [] OTHER -> e
 MapInt(rule_pe, e) ==
@@ -170,7 +172,7 @@ Ref(rule, pe, e) == IF rule \in Parametric THEN MapFirst(<<rule, pe>>, e).e
 
 (* ---------------------------------- the universe ---------------------------------- *)
 Polys == UNION {[1..(d + 1) -> Coef] : d \in 0..MaxD}           \* coefficient sequences (integers), constant first
-PolyQ(c) == Trim([i \in 1..Len(c) |-> RInt(c[i])])
+PolyQ(c) == Trim([i \in 1..Len(c) |-> RInt(c[i])] \o <<>>)
 \* shapes of one integrand
 Expanded(c) == FromPoly(PolyQ(c), "x")
 Shapes(c) ==
@@ -226,14 +228,21 @@ VecOf(e, o, n) ==
 
 \* values of an expression at the grid points of the start expression's variables
 ValTab(e, vs) == [env \in [vs -> Grid(1)] |-> Val(e, env)] @@ <<>>
-Init == /\ TLCSet(7, <<>>)
+\* vectors are collected in TLC registers: 7 = the current chunk, 8 = the sequence of full chunks (a single growing
+\* sequence would be walked completely by every TLCSet)
+ChunkLen == 250
+Log(v) == LET cur == TLCGet(7) IN
+          IF Len(cur) >= ChunkLen THEN TLCSet(8, Append(TLCGet(8), cur)) /\ TLCSet(7, <<v>>) ELSE TLCSet(7, Append(cur, v))
+RECURSIVE Flatten(_, _)
+Flatten(cs, i) == IF i > Len(cs) THEN <<>> ELSE cs[i] \o Flatten(cs, i + 1)
+Init == /\ TLCSet(7, <<>>) /\ TLCSet(8, <<>>)
         /\ start \in Universe /\ steps = <<>> /\ hist = <<>>
         /\ ref = ValTab(start, FV(start))
 PerformRule(o) ==
   /\ steps' = Append(steps, Ref(o[1], o[3], Last))
   /\ hist' = Append(hist, o[1])
   /\ UNCHANGED <<start, ref>>
-  /\ TLCSet(7, Append(TLCGet(7), VecOf(Last, o, Len(steps))))
+  /\ Log(VecOf(Last, o, Len(steps)))
 Next == Len(steps) < MaxSteps /\ \E o \in Offers(Last, Len(steps)) : PerformRule(o)
 Spec == Init /\ [][Next]_vars
 
@@ -246,12 +255,13 @@ SameValueOp == Len(steps) > 0 => LET r == SameValue(start, Last, <<>>) IN ~r.fai
 TwoEvaluators ==
   /\ IsInt(Last) /\ ToPoly(Last[5], Last[2]) # PErr =>
        LET P == PAnti(ToPoly(Last[5], Last[2]))  lo == Val(Last[3], <<>>).v  hi == Val(Last[4], <<>>).v IN
-       Val(Last, <<>>) = Res(0, RSub(PEval(P, hi), PEval(P, lo)), Z)
+       Len(P) >= 0 /\ Val(Last, <<>>) = Res(0, QSub(PEval(P, hi), PEval(P, lo)), Z)
   /\ Last[1] = "deriv" /\ ToPoly(Last[3], Last[2]) # PErr =>
-       \A t \in Grid(1) : Val(Last, [y \in {Last[2]} |-> t]) = Res(0, PEval(PDeriv(ToPoly(Last[3], Last[2])), t), Z)
+       LET P == PDeriv(ToPoly(Last[3], Last[2])) IN
+       Len(P) >= 0 /\ \A t \in Grid(1) : Val(Last, [y \in {Last[2]} |-> t]) = Res(0, PEval(P, t), Z)
 SimplifyIdempotent == LET s == Ref("Simplify", <<>>, Last) IN Ref("Simplify", <<>>, s) = s
 \* written at the end of the run: every transition taken, as a vector for the real code
-Emit == LET vs == TLCGet(7) IN
+Emit == LET vs == Flatten(TLCGet(8), 1) \o TLCGet(7) IN
         /\ Len(vs) > 0
         /\ ndJsonSerialize(IOEnv.VECTOR_FILE, vs)
         /\ PrintT(<<"vectors", Len(vs), "universe", Cardinality(Universe), "rules", {vs[i].ref : i \in 1..Len(vs)}>>)
